@@ -193,6 +193,68 @@ Proof.
 Qed.
 Print Assumptions C07_comp_header_is_aad.
 
+(* Frame bound: a Companion frame carries at most 2^24 - 1 bytes after the header (2^24 - 17
+   bytes of plaintext when encrypted).  send() decides on the SIZE alone ([comp_header_of_size]):
+   a payload that does not fit is refused with OverflowError and NOTHING is produced (no bytes, no
+   AEAD call, counter untouched); a frame that is produced starts with the type byte followed by
+   the 24-bit big endian length of what follows, and that length is the real one. *)
+Theorem C07_comp_frame_bound : forall key enc,
+  (forall k n a p, length (enc k n a p) = (length p + 16)%nat) ->
+  forall (c : option (cipher key)) ft data,
+  let tagged := match c with Some _ => nonempty data | None => false end in
+  (forall e, comp_header_of_size tagged ft (blen data) = Raise e -> comp_send key enc c ft data = Raise e) /\
+  (2 ^ 24 <= blen data + (if tagged then 16 else 0) ->
+     comp_send key enc c ft data = Raise OverflowError) /\
+  (forall out c', comp_send key enc c ft data = Ok (out, c') ->
+     blen data + (if tagged then 16 else 0) < 2 ^ 24 /\
+     exists body, out = ft :: be_enc 3 (blen body) ++ body /\
+                  comp_header_of_size tagged ft (blen data) = Ok (ft :: be_enc 3 (blen body)) /\
+                  blen body = blen data + (if tagged then 16 else 0)).
+Proof.
+  intros key enc enc_len c ft data tagged.
+  assert (Hsend : comp_send key enc c ft data =
+    match to_bytes_be 3 (blen data + (if tagged then 16 else 0)) with
+    | Raise e => Raise e
+    | Ok lb =>
+      match c with
+      | Some ci => if nonempty data then
+                     match c_encrypt key enc ci data (ft :: lb) with
+                     | Raise e => Raise e
+                     | Ok (ct, ci') => Ok ((ft :: lb) ++ ct, Some ci')
+                     end
+                   else Ok ((ft :: lb) ++ data, c)
+      | None => Ok ((ft :: lb) ++ data, c)
+      end
+    end) by reflexivity.
+  unfold comp_header_of_size, AUTH_TAG_LENGTH. split; [|split].
+  - intros e H. rewrite Hsend. destruct (to_bytes_be 3 (blen data + (if tagged then 16 else 0))); [discriminate|].
+    now inversion H.
+  - intro H. rewrite Hsend. unfold to_bytes_be. change (256 ^ N.of_nat 3) with (2 ^ 24).
+    apply N.ltb_ge in H. now rewrite H.
+  - intros out c' H. rewrite Hsend in H.
+    destruct (to_bytes_be 3 (blen data + (if tagged then 16 else 0))) as [lb|e] eqn:E; [|discriminate].
+    apply to_bytes_be_ok in E as [Hlt ->]. change (256 ^ N.of_nat 3) with (2 ^ 24) in Hlt.
+    split; [exact Hlt|].
+    assert (Plain : forall tg, tagged = tg -> tg = false ->
+              Ok ((ft :: be_enc 3 (blen data + (if tagged then 16 else 0))) ++ data, c) = Ok (out, c') ->
+              exists body, out = ft :: be_enc 3 (blen body) ++ body /\
+                Ok (ft :: be_enc 3 (blen data + (if tagged then 16 else 0))) = Ok (ft :: be_enc 3 (blen body)) /\
+                blen body = blen data + (if tagged then 16 else 0)).
+    { intros tg E1 E2 H0. rewrite E1, E2 in *. rewrite N.add_0_r in *. inversion H0; subst.
+      exists data. repeat split. }
+    destruct c as [ci|].
+    + destruct (nonempty data) eqn:En.
+      * destruct (c_encrypt key enc ci data _) as [[ct ci']|e] eqn:Ee; [|discriminate].
+        apply c_encrypt_spec in Ee as (n & _ & Hct & _).
+        assert (Ho : out = (ft :: be_enc 3 (blen data + (if tagged then 16 else 0))) ++ ct) by congruence.
+        clear H Hsend Plain. subst tagged. change (if true then 16 else 0) with 16 in *.
+        assert (Hb : blen ct = blen data + 16) by (unfold blen; rewrite Hct, enc_len; lia).
+        exists ct. rewrite Hb. repeat split.
+      * apply (Plain false); auto. unfold tagged. exact En.
+    + apply (Plain false); auto.
+Qed.
+Print Assumptions C07_comp_frame_bound.
+
 (* Round trip for every segmentation, encrypted or not ([osync]): the listener gets exactly
    the frames that were sent, in order (frames of a type outside the FrameType enum [known]
    are dropped by the receiver: [deliv]). *)
